@@ -12,7 +12,7 @@ from c07 import OPLIB, INPUTS, build, tree_nodes, node_has, resolve
 
 NEEDS = ["Heap", "Values", "ValuesProofs", "Mutation", "MutationProofs", "Corr"]
 GUARD = "no_state_carry"
-GUARD_E = "no_derive_edit"
+GUARD_E = "no_collect"        # guard of the open finding D98 (ops_ok: also covers the former derive-and-edit guard)
 STEP = 0.125
 
 # ---------------------------------------------------------------------------------------------- impl side (worker)
@@ -27,6 +27,10 @@ def _measure(c):
         func, args, names, smap = cc.get_run_func("f", STEP, in_place=True, float_precision="float64", vectorize=False,
                                                   backend="default", verbose=False, clear=False)
         obs = c07._read(func, args, names, smap)
+    except Exception as e:
+        if "Could not find object with path" not in str(e):
+            raise
+        obs = {"raised": "path"}          # a variable path held by an edge attribute no longer names a variable
     finally:
         reset_keep_templates()
     cy = deepcopy(c)
@@ -205,7 +209,7 @@ def impl(case):
                 y = np.asarray(args[1], dtype=np.float64)
                 # vectorized compiles name the merged state vector differently: compare the multiset of initial values
                 outs.append({"y0": "declared" if sorted(y.reshape(-1).tolist()) == sorted(declared.values()) else "carried"})
-            except (ValueError, KeyError, TypeError) as e:
+            except Exception as e:          # ValueError / KeyError / TypeError: state carry; PyRatesException: unresolvable edge attribute path
                 outs.append({"y0": "err", "type": type(e).__name__})
             finally:
                 reset_keep_templates()
@@ -218,7 +222,7 @@ def impl(case):
                 first = sorted(float(v) for v in np.asarray(res.iloc[0]).reshape(-1))
                 ok = first == sorted(v for kk, v in declared.items() if kk.endswith("/op/x"))
                 outs.append({"run": "ok" if ok else "other-start"})
-            except (TypeError, IndexError, ValueError, KeyError) as e:     # TypeError after get_run_func, IndexError after get_jacobian_func
+            except Exception as e:     # TypeError after get_run_func, IndexError after get_jacobian_func, PyRatesException: unresolvable path
                 outs.append({"run": "err", "type": type(e).__name__})
             finally:
                 reset_keep_templates()
@@ -256,12 +260,22 @@ def gen_case(rng, maxlen):
     def leaf():
         circs.append(dict(leaf=True, children=[[k, rng.randrange(len(nodes))] for k in names[:rng.randint(2, 3)]], edges=[]))
         add_edges(len(circs) - 1, rng.randint(0, 2))
+        if rng.random() < 0.35:
+            # an edge through an edge template whose second input is addressed by a variable path (string-valued attribute)
+            ns = ["/".join(p) for p, j in tree_nodes(tmp(), len(circs) - 1)]
+            circs[-1]["edges"].append([rng.choice(ns) + "/op/x", rng.choice(ns) + "/op/u", pos8(rng), rng.choice(ns) + "/op/x"])
         return len(circs) - 1
+    def has_ref(j):
+        c_ = circs[j]
+        return any(len(e) > 3 for e in c_["edges"]) or (not c_["leaf"] and any(has_ref(jj) for _, jj in c_["children"]))
     def inner(level):
         kids, pool = [], []
         for k in ["c1", "c2", "c3"][:rng.randint(1, 2) if level > 1 else rng.randint(2, 3)]:
-            if pool and rng.random() < 0.2:
-                kids.append([k, rng.choice(pool)])
+            # before fix D98 a sub-circuit object with a path-valued edge attribute that is registered under two names
+            # cannot be compiled at all (its dictionary is prefixed once per name): shared only when the repair is in
+            share = [j for j in pool if FIXED_98 or not has_ref(j)]
+            if share and rng.random() < 0.2:
+                kids.append([k, rng.choice(share)])
             else:
                 j = leaf() if level == 1 else inner(level - 1)
                 pool.append(j); kids.append([k, j])
@@ -341,6 +355,8 @@ def gen_case(rng, maxlen):
         case["via_yaml"] = True
         for o in ops:
             o["dictform"] = []
+        for c_ in circs:           # the handwritten YAML has no edge templates
+            c_["edges"] = [e[:3] for e in c_["edges"]]
         seq[:] = [o for o in seq if o[0] != "op_update_vars"]
         names_d = [o["name"] for o in ops] + [f"n{i}" for i in range(len(nodes))] + [f"ct{i}" for i, c in enumerate(circs) if c["edges"]]
         k = rng.randint(1, 3)
@@ -366,20 +382,28 @@ def _switch(name, env):
 
 
 FIXED = _switch("fixed_state_carry", "VERIF_C14_FIXED")              # fix D74 (true on the current tree)
-FIXED_E = _switch("fixed_shared_edge_dicts", "VERIF_C14_EDGES_FIXED")  # proposed_fix_C14_shared_edge_dicts
+FIXED_E = _switch("fixed_shared_edge_dicts", "VERIF_C14_EDGES_FIXED")  # fix D82 (true on the current tree)
+FIXED_98 = _switch("fixed_D98", "VERIF_C14_D98_FIXED")                 # fixes/fix_D98.diff: collect_edges prefixes in a copy
 HEADER = """From Coq Require Import List String ZArith QArith Qcanon Bool.
 From PV Require Import Heap Values Mutation Corr.
 Import ListNotations.
 Definition fixed : bool := %s.
 Definition fixed_e : bool := %s.
+Definition fixed98 : bool := %s.
 Definition ccase := (nat * id * heap * list string * list mop * list pymout)%%type.
-Definition okI (c : ccase) := let '(d, r, h, inputs, ops, pys) := c in mouts_ok inputs (snd (mrun_gen fixed fixed_e d r (h, book0) ops)) pys.
+Definition okI (c : ccase) := let '(d, r, h, inputs, ops, pys) := c in mouts_ok inputs (snd (mrun_gen fixed fixed_e fixed98 d r (h, book0) ops)) pys.
 Definition okS (c : ccase) := let '(d, r, h, inputs, ops, pys) := c in
   match abs d h r with Some t => mouts_ok inputs (map (mstepS d t) ops) pys | None => false end.
 Definition guard (c : ccase) := let '(d, r, h, inputs, ops, pys) := c in orb fixed (no_state_carry ops).
-Definition guard_e (c : ccase) := let '(d, r, h, inputs, ops, pys) := c in orb fixed_e (no_derive_edit ops).
+Definition has_ref (h : heap) : bool :=
+  existsb (fun o => match o with
+                    | OCirc _ es => existsb (fun e : edge => let '(_, _, a) := e in
+                                              existsb (fun kv : string * val => match snd kv with Ref _ => true | _ => false end) a) es
+                    | _ => false end) h.
+(* outside the guard of finding D98: a collect_edges / get_edges call on a template that has a path-valued edge attribute *)
+Definition guard_e (c : ccase) := let '(d, r, h, inputs, ops, pys) := c in ops_ok fixed_e fixed98 ops || negb (has_ref h).
 Definition wf (c : ccase) := let '(d, r, h, inputs, ops, pys) := c in match abs d h r with Some t => true | None => false end.
-""" % ("true" if FIXED else "false", "true" if FIXED_E else "false")
+""" % ("true" if FIXED else "false", "true" if FIXED_E else "false", "true" if FIXED_98 else "false")
 
 
 def coq_case(case, outs):
@@ -389,7 +413,7 @@ def coq_case(case, outs):
     for o, r in zip(case["seq"], outs):
         k = o[0]
         if k == "obs":
-            ops.append("MObserve"); pys.append("PObs'" + c07.coq_obs(r)[4:])
+            ops.append("MObserve"); pys.append("PRaised'" if "raised" in r else "PObs'" + c07.coq_obs(r)[4:])
         elif k == "get_nodes":
             ops.append(f"MRead (QNodes {cpath(o[1])})")
             pys.append("PPaths None" if r["paths"] is None else "PPaths (Some " + clist([cpath(p) for p in r["paths"]]) + ")")
@@ -499,12 +523,13 @@ def check(ctx):
     # a derive-and-edit sequence changes the base's edge weight (the model predicts it): the dump text changes with it
     badS = sorted(set(badS) | set(side)); badI = sorted(set(badI) | (set(side) - set(gefalse)))
     ctx.note(f"switches: fixed_state_carry={FIXED} (guard no_state_carry {'dropped' if FIXED else 'active'}), "
-             f"fixed_shared_edge_dicts={FIXED_E} (guard no_derive_edit {'dropped' if FIXED_E else 'active'})")
+             f"fixed_shared_edge_dicts={FIXED_E}, fixed_D98={FIXED_98} (guard no_collect {'dropped' if FIXED_98 else 'active'})")
     gany = sorted(set(gfalse) | set(gefalse))
     ctx.note(f"E1: {len(cases)} sequences, {sum(len(c['seq']) for c in cases)} operations; impl-vs-Impl mismatches {len(badI)}, "
              f"impl-vs-Spec mismatches {len(badS)} (of which outside a guard: {len([i for i in badS if i in gany])}), "
              f"to_yaml-text / own-edge-list changes {len(side)}, harness/worker errors {len(crashed)}; sequences outside the guards: "
-             f"no_state_carry {len(gfalse)}, no_derive_edit {len(gefalse)}")
+             f"no_state_carry {len(gfalse)}, no_collect {len(gefalse)}; templates with a path-valued edge attribute: "
+             f"{sum(1 for c in cases if any(len(e) > 3 for cc in c['circs'] for e in cc['edges']))}")
     def witness_check(f):
         w = json.load(open(os.path.join(VERIF, f["witness"])))
         return fails(ctx, w, "wit")[0]
